@@ -39,6 +39,11 @@ def _variants_for(prop: str) -> list[dict]:
     if exp_file.exists():
         exp = json.loads(exp_file.read_text())
         for sid, props in sorted(exp.items()):
+            # an independently written change is *required* to fire only in the check of the property it was written
+            # against (its id prefix); what other checks say about it is informational (seeded/MATRIX.md)
+            own = sid[:3] if sid[:1] == "C" and sid[1:3].isdigit() else None
+            if own is not None and own != prop:
+                continue
             if prop in props and (VERIF / "seeded" / sid / "patch.diff").exists():
                 out.append({"prop": prop, "kind": "fire", "name": f"seeded change {sid}", "patch": str(VERIF / "seeded" / sid / "patch.diff"), "expect": "", "source": "seeded"})
     return out
